@@ -31,6 +31,18 @@ CHECKS = {
   "Bounded-exhaustive: for every model-valid text of the universes and a family of API-built documents (placeholders, conversions) a recording Visit and VisitMut are run and the callback sequence (kind, node address, content) compared with an independent pre-order walk through the public accessors; an integer-rewriting VisitMut must change every integer and nothing else (decoded tree == model tree + 1, text identical outside integer tokens).",
   "Document order = order of the public iterators; the independent walk uses only iter()/as_*() accessors.",
   "exhaustive enumeration of bounded input universes; visitor trace equality with an independent tree walk"),
+ "C10": ("model_checking", "enum", "5/C10",
+  "Exhaustive over the finite space the property names: every string of length <= 5 (quick) / 6 (thorough) over one representative per byte class (14 symbols), plus all strings <= 7-10 over {quote, apostrophe, backslash, LF, letter}; every style the value and key builders offer (and the toml_edit / toml default representations) must parse alone, in a key/value pair, array, inline table, header and dotted key, under the real parser and the specification model, and decode to exactly the original string.",
+  "The choice of one representative per byte class is justified by the writer's metrics code and validated on the parser side by the all-256-bytes universe of C01/C04.",
+  "exhaustive enumeration of all short strings x all offered quoting styles; decode equality under parser and reference model"),
+ "C11": ("model_checking", "enum", "5/C11",
+  "Complete structured lattices instead of samples: i64 (+-2^k, +-10^k and neighbours), f64 (all 2048 exponents x mantissa patterns x signs), f32 likewise, through every writer route; each literal must have the right TOML type per the specification model and parse back bit-for-bit. Reader side: all range-edge literals in four bases with signs/underscores and all number strings <= 5-6 over 17 symbols get the specification's verdict and value. Serde side: 12 integer widths x boundary values on output and x the i64 lattice on input must be exact or fail.",
+  "The property's 'sampled uniformly' clause is replaced by the complete lattice (sampling is a different family); serde serializers drop the sign of NaN by documented design, so NaNs are compared by NaN-ness on those routes only.",
+  "exhaustive enumeration of a structured bit-pattern lattice and of short number strings; round-trip and reference-model oracles"),
+ "C12": ("model_checking", "enum", "5/C12",
+  "Bounded-exhaustive: every string within edit distance 1 (quick) / 2 (thorough) of 14 seed date-times over the 16-symbol date-time alphabet plus complete field sweeps is given to Datetime::from_str, Value::from_str, the document parser and the specification model, which must agree on acceptance and on every field; printed forms must be accepted by all and parse back; every Datetime over a lattice of in-range fields (87 K values) must print to text every parser reads back, also through the API and serde.",
+  "Trusts refmodel's reading of RFC 3339 as restricted by TOML 1.0.0.",
+  "exhaustive enumeration of an edit neighbourhood and a field lattice; four-way agreement oracle"),
 }
 
 NOT_YET = {}
